@@ -1,6 +1,7 @@
 """C12 -- stream and file helpers hash exactly the bytes the reader delivered."""
 import core
 import configs
+import pyref
 import suites
 from suites import VNAMES, hx
 from props import gencommon as gc
@@ -12,7 +13,7 @@ RULE = ("STREAM: scripted readers (harness ScriptReader; its read() sequence is 
         "readers that over-claim (lie); one > 1 MiB stream in quick, several in thorough.  Every case is decided on the "
         "implementation against the property (hash_stream(script) vs hash_buf(concatenation of the delivered bytes), first "
         "hard error returned as that IOError) and compared with the model.  FILE: real files of sizes 0 .. > 1 MiB through "
-        "hash_file vs hash_buf of their contents; a missing path.  Non-trivial = the stream reaches finalization or an I/O "
+        "hash_file vs hash_buf of their contents; procfs pseudo-files whose metadata reports length 0; a missing path.  Non-trivial = the stream reaches finalization or an I/O "
         "error after at least one delivery; distinct by case text.")
 
 KINDS = ["NotFound", "PermissionDenied", "UnexpectedEof", "TimedOut", "WouldBlock", "BrokenPipe", "InvalidData", "Other"]
@@ -202,6 +203,17 @@ def run(ctx):
                    nontrivial=lambda c, i: "ok" in i or "ioerr" in i)
     if big_f:
         ctx.impl_only("FILE-BIG-IMPL", big_f, hb, lambda c, i: fpred(c, i, None), nontrivial=lambda c, i: "ok" in i)
+    # pseudo-files: metadata reports length 0 but reads deliver data (stable procfs entries); implementation only
+    import os
+    pseudo = [p for p in ("/proc/filesystems", "/proc/devices", "/proc/version", "/proc/cmdline", "/proc/misc")
+              if os.path.exists(p) and os.path.getsize(p) == 0]
+
+    def ppred(c, i):
+        a, _, b = i.partition(" == ")
+        return None if a == b else "hash_file(%s) = `%s` but hash_buf of its contents = `%s`" % (pyref.unhex(c.split(" ")[2]).decode(), a[:80], b[:80])
+    if pseudo:
+        ctx.impl_only("FILE-PSEUDO", ["filepath %s %s" % (v, hx(p.encode())) for v in VNAMES for p in pseudo], hb, ppred,
+                      nontrivial=lambda c, i: "ok" in i)
     return finish(ctx)
 
 
